@@ -48,6 +48,8 @@ def plan(tier, seed):
     # vectorised entry points, end points
     for (p, n) in [(1, 2), (2, 2), (4, 2), (2, 3), (3, 1)] + ([(6, 2), (3, 3)] if thorough else []):
         Q.append(('vec', None, p, n, {}))
+    for (p, n, dt) in [(16, 2, 'int32'), (8, 2, 'int16'), (12, 3, 'int32')] + ([(15, 2, 'uint16'), (31, 2, 'int32')] if thorough else []):
+        Q.append(('vec', None, p, n, {'dtype': dt}))
     for n in (1, 2, 3):
         for p in range(1, (62 // n) + 1):
             if n == 2 and p > 31:
@@ -76,8 +78,9 @@ def run(check, pool, Task):
             tasks.append(Task(nm, c07.relation, (rel, p, n), dict(kw, timeout=cap, seed=check.seed), timeout=cap + 60,
                               meta={'kind': kind, 'rel': rel, 'p': p, 'n': n, **{k: list(v) for k, v in kw.items()}}))
         elif kind == 'vec':
-            tasks.append(Task(f"vectorised==scalar p={p} n={n} rows=3", c07.vectorised, (p, n), {'timeout': cap}, timeout=cap + 60,
-                              meta={'kind': kind, 'p': p, 'n': n}))
+            dt = kw.get('dtype', 'int64')
+            tasks.append(Task(f"vectorised==scalar p={p} n={n} rows=3 coordinate dtype={dt}", c07.vectorised, (p, n), {'timeout': cap, 'dtype': dt}, timeout=cap + 60,
+                              meta={'kind': kind, 'p': p, 'n': n, 'dtype': dt}))
         else:
             tasks.append(Task(f"endpoints p={p} n={n}", c07.endpoints, (p, n), timeout=120, meta={'kind': kind, 'p': p, 'n': n}))
     # long ones first
@@ -91,7 +94,7 @@ def run(check, pool, Task):
                 if m['kind'] == 'rel':
                     bad, wit = c07.replay_relation(m['rel'], m['p'], m['n'], r['inputs'])
                 elif m['kind'] == 'vec':
-                    bad, wit = c07.replay_vectorised(m['p'], m['n'], r['inputs'])
+                    bad, wit = c07.replay_vectorised(m['p'], m['n'], r['inputs'], m.get('dtype', 'int64'))
                 else:
                     first = c07.real_c(m['p'], m['n'], 0)
                     last = c07.real_c(m['p'], m['n'], (1 << (m['n'] * m['p'])) - 1)
